@@ -64,7 +64,8 @@ for m, msg in (("to_receiver", "is not a receiver"), ("to_sender", "is not a sen
                    "findings_demo: `cargo run --features inproc -- kind` -> PANICKED; without the feature -> Ok"))
 
 # ---- C12
-F.append(open_("C12", "CLOSED-ORIGIN", "CLOSED-ORIGIN:platform::unix::recv:libc::recv==0",
+for _p in ("C12", "C03"):
+  F.append(open_(_p, "CLOSED-ORIGIN", "CLOSED-ORIGIN:platform::unix::recv:libc::recv==0",
                "recv() reports UnixError::ChannelClosed when the per-message follow-up socket hits EOF: a sender process killed in the middle of a multi-fragment "
                "message makes a plain receiver report Disconnected, and makes a receiver set deregister and close the member (a router drops the route), although "
                "another sender handle survives and the channel is still usable. Not repaired: a correct repair needs a distinct error and a policy for an aborted "
